@@ -18,16 +18,29 @@ RULE = ("cases: byte strings of every length 0..80 x leading-zero counts (all-ze
         "character at all - digit/punctuation HRP, digit-only data part and checksum - found by search, and characters "
         "outside ASCII whose case folding lands in the charset); call histories on one process: the same request repeated "
         "and spelled differently (plain str / parseable_str, bytes / list program, explicit max_length=90, the same text "
-        "under two HRPs) after every mutable value handed out earlier or passed in was modified in place by the caller. "
+        "under two HRPs) after every mutable value handed out earlier or passed in was modified in place by the caller; "
+        "histories with refused calls in between (human-readable parts in upper / mixed case as the first use of a fresh, "
+        "never-used HRP in the process, versions / programs / items / texts of the wrong value or type, for every public "
+        "function of the anchors), after which the next judged calls must be right and the caller's list / bytearray "
+        "arguments unchanged; byte strings handed over as bytearray and asked twice with the same object; results of a decoder "
+        "handed to the encoder; one parseable_str through both families of parsers incl. addresses that are Base58 strings too; "
+        "HRPs that nest; one long run of more than 2**16 operations in one process on one HRP and two parseable_str objects. "
         "A case is non-trivial when it is not the empty input; distinct by (operation, input).")
 ASSUMPTIONS = [
     "reference codecs in vmon/refs/b58.py and vmon/refs/bech32.py are correct (self-tested on every run against the "
     "published Base58 vectors and the BIP173/BIP350 valid/invalid lists)",
     "'difference of up to four characters' is read as up to four substituted character positions (the BCH guarantee)",
+    "a byte string held in a bytearray is a byte string: the Base58 encoders (which take one today) answer as for bytes, leave "
+    "the caller's buffer as it was and answer the same when handed the same buffer again; likewise list / bytearray programs "
+    "and lists of 5-bit groups",
+    "requests outside the statement (a human-readable part with upper-case letters on the encoding side, versions, programs, "
+    "items, texts of the wrong value or type) are never judged themselves - refusing or answering is both fine - only the "
+    "judged calls that follow them in the same process and the caller's mutable arguments are",
 ]
 EXPLANATION = ("every pycoin codec call is compared with the reference codec's result; rejection classes must raise EncodingError / "
                "return (None, None); in history shards the expected result of a call never depends on earlier calls or on what the "
-               "caller did with earlier results")
+               "caller did with earlier results, nor on refused requests in between; the long-run shard repeats the comparison for more "
+               "than 2**16 operations in one process")
 
 
 def exhaustive(tier):
@@ -50,6 +63,10 @@ def plan(tier, seed):
             shards.append({"kind": "subst", "addr": a, "part": p, "parts": parts,
                            "double_budget": 8000 if tier == "quick" else None,
                            "multi": 2600 if tier == "quick" else 20000})
+    # appended last: the shard number feeds the rng of the shards above
+    for p in range(2 if tier == "quick" else 6):
+        shards.append({"kind": "errhist", "n": 1200 if tier == "quick" else 20000, "label": "errhist%d" % p})
+    shards.append({"kind": "longrun", "n": (1 << 16 if tier == "quick" else 1 << 17) + 100 + 150, "label": "longrun"})
     return shards
 
 
@@ -726,6 +743,22 @@ def _h_expected(st):
         return ("ok", RB.encode(st["data"]))
     if op == "b2a_hashed_base58":
         return ("ok", RB.encode_check(st["data"]))
+    if op == "x":                        # a call the library may refuse: never judged itself
+        return None
+    if op == "parse_b58":
+        t = RB.decode(st["text"])
+        return ("rej",) if t is None else ("ok", t)
+    if op == "chain_bech32":             # bech32_decode, then bech32_encode of exactly what came back
+        return ("rej",) if R32.raw_decode(st["text"]) is None else ("ok", st["text"].lower())
+    if op == "chain_segwit":             # decode, then encode of the returned version and list
+        return ("rej",) if R32.segwit_decode(st["hrp"], st["text"]) is None else ("ok", st["text"].lower())
+    if op == "chain_parse":              # parse_bech32, then encode of the returned triple
+        raw = R32.raw_decode(st["text"])
+        if raw is None:
+            return ("rej",)
+        return None if R32.segwit_decode(raw[0], st["text"]) is None else ("ok", st["text"].lower())
+    if op == "chain_b58":                # a2b_hashed_base58, then b2a_hashed_base58 of a bytearray of what came back
+        return ("rej",) if RB.decode_check(st["text"]) is None else ("ok", st["text"])
     raise ValueError(op)
 
 
@@ -741,11 +774,20 @@ def _h_text_arg(st, env, M):
     return st["text"]
 
 
-def _h_run(st, env, M):
-    """Perform the call; -> (normalised observed outcome, returned object, list argument passed in or None)."""
+def _h_run(st, env, M, reuse=None):
+    """Perform the call; -> (normalised observed outcome, returned object, list / bytearray argument passed in or None,
+    copy of that argument taken before the call). `reuse`: pass this very object again instead of building the argument."""
     b58, _, bm, ps = M
     op = st["op"]
-    arg = None
+    arg = snap = None
+    seq = {"list": list, "bytearray": bytearray}
+
+    def mk(value, how):
+        a = reuse if reuse is not None else seq.get(how, bytes)(value)
+        return a, (type(a)(a) if isinstance(a, (list, bytearray)) else None)
+
+    if op == "x":
+        return _x_run(st, M)
     if op == "bech32_decode":
         t = _h_text_arg(st, env, M)
         a, kw = {"pos90": ((t, 90), {}), "kw90": ((t,), {"max_length": 90})}.get(st.get("spell"), ((t,), {}))
@@ -757,7 +799,7 @@ def _h_run(st, env, M):
         if s == "ok":
             n = ("rej",) if tuple(r) == (None, None) else ("ok", r[0], None if r[1] is None else bytes(r[1]))
     elif op == "encode":
-        arg = {"list": list, "bytearray": bytearray}.get(st.get("as"), bytes)(st["prog"])
+        arg, snap = mk(st["prog"], st.get("as"))
         s, r = observe(bm.encode, st["hrp"], st["ver"], arg)
         if s == "ok":
             n = ("rej",) if r is None else ("ok", r)
@@ -766,17 +808,17 @@ def _h_run(st, env, M):
         if s == "ok":
             n = ("rej",) if r is None else ("ok", r[0], r[1], r[2])
     elif op == "convertbits85":
-        arg = {"list": list, "bytearray": bytearray}.get(st.get("as"), bytes)(st["data"])
+        arg, snap = mk(st["data"], st.get("as"))
         s, r = observe(bm.convertbits, arg, 8, 5)
         if s == "ok":
             n = ("rej",) if r is None else ("ok", list(r))
     elif op == "convertbits58":
-        arg = list(st["vals"])
+        arg, snap = mk(st["vals"], "list")
         s, r = observe(bm.convertbits, arg, 5, 8, False)
         if s == "ok":
             n = ("rej",) if r is None else ("ok", bytes(r))
     elif op == "bech32_encode":
-        arg = list(st["vals"])
+        arg, snap = mk(st["vals"], "list")
         s, r = observe(bm.bech32_encode, st["hrp"], arg, 1 if st["variant"] == "bech32" else 2)
         if s == "ok":
             n = ("ok", r)
@@ -784,19 +826,51 @@ def _h_run(st, env, M):
         s, r = observe(getattr(b58, op), st["text"])
         if s == "ok":
             n = ("ok", r)
-    elif op == "parse_b58_double_sha256":
-        s, r = observe(ps.parse_b58_double_sha256, _h_text_arg(st, env, M))
+    elif op in ("parse_b58_double_sha256", "parse_b58"):
+        s, r = observe(getattr(ps, op), _h_text_arg(st, env, M))
         if s == "ok":
             n = ("rej",) if r is None else ("ok", r)
     elif op in ("b2a_base58", "b2a_hashed_base58"):
-        s, r = observe(getattr(b58, op), st["data"])
+        if st.get("as") == "bytearray":          # a byte string in a buffer the caller owns
+            arg, snap = mk(st["data"], "bytearray")
+        s, r = observe(getattr(b58, op), st["data"] if arg is None else arg)
         if s == "ok":
+            n = ("ok", r)
+    elif op == "chain_bech32":
+        s, r = observe(bm.bech32_decode, _h_text_arg(st, env, M))
+        if s == "ok":
+            if tuple(r) == (None, None, None):
+                n = ("rej",)
+            else:
+                s, r = observe(bm.bech32_encode, r[0], r[1], r[2])
+                n = ("ok", r)
+    elif op == "chain_segwit":
+        s, r = observe(bm.decode, st["hrp"], _h_text_arg(st, env, M))
+        if s == "ok":
+            if tuple(r) == (None, None):
+                n = ("rej",)
+            else:
+                s, r = observe(bm.encode, st["hrp"], r[0], r[1])
+                n = ("rej",) if r is None else ("ok", r)
+    elif op == "chain_parse":
+        s, r = observe(ps.parse_bech32, _h_text_arg(st, env, M))
+        if s == "ok":
+            if r is None:
+                n = ("rej",)
+            else:
+                s, r = observe(bm.encode, r[0], r[1], r[2])
+                n = ("rej",) if r is None else ("ok", r)
+    elif op == "chain_b58":
+        s, r = observe(b58.a2b_hashed_base58, st["text"])
+        if s == "ok":
+            arg, snap = mk(r, "bytearray")
+            s, r = observe(b58.b2a_hashed_base58, arg)
             n = ("ok", r)
     else:
         raise ValueError(op)
     if s != "ok":
-        return ("exc", type(r).__name__), None, arg
-    return n, r, arg
+        return ("exc", type(r).__name__), None, arg, snap
+    return n, r, arg, snap
 
 
 def _h_agrees(op, exp, got):
@@ -808,24 +882,80 @@ def _h_agrees(op, exp, got):
     return False
 
 
+_SEEN_HRPS = set()          # lower-cased human-readable parts any history step of this process has named so far
+
+
+def _h_hrps(st):
+    """Human-readable parts a step is about (as spelled in the request and as found in its text)."""
+    out = set()
+    if isinstance(st.get("hrp"), str):
+        out.add(st["hrp"].lower())
+    t = st.get("text")
+    if isinstance(t, str) and "1" in t and (st["op"] in BECH32_OPS or st.get("call") in BECH32_OPS):
+        out.add(t.lower()[:t.rfind("1")])
+    return out
+
+
+BECH32_OPS = ("bech32_decode", "decode", "encode", "parse_bech32", "bech32_encode", "chain_bech32", "chain_segwit", "chain_parse",
+              "bech32_create_checksum", "bech32_verify_checksum")
+
+
 def _h_step(st, H, env, rec, M):
     """Execute step `st` (already appended to H). -> True when it disagreed with the reference."""
     exp = _h_expected(st)
+    op = st["op"]
     rec.ev("hist.step")
-    rec.ev("hist." + st["op"])
-    got, ret, arg = _h_run(st, env, M)
-    bad = not _h_agrees(st["op"], exp, got)
+    rec.ev("hist." + op)
+    refused_before = any(h["op"] == "x" for h in H[:-1])
+    if op == "x":
+        rec.ev("hist.refused_call.%s.%s" % (st["call"], st["bad"].split("_")[0]))
+        if st["bad"] in X_CASE_BADS and st["call"] in X_ENCODE_SIDE and st["hrp"].lower() not in _SEEN_HRPS:
+            rec.ev("hist.refused_call.cased_hrp_is_first_use_of_hrp")
+            env.setdefault("poisoned", set()).add(st["hrp"].lower())
+    else:
+        if refused_before and exp is not None:
+            rec.ev("hist.judged_after_refused_call")
+            if exp != ("rej",):
+                rec.ev("hist.judged_after_refused_call.valid_request")
+        if exp is not None and exp != ("rej",) and _h_hrps(st) & env.get("poisoned", set()):
+            rec.ev("hist.valid_request_on_hrp_first_used_by_refused_call")
+        if st.get("nested"):
+            rec.ev("hist.decode.nested_hrp")
+        if op == "parse_b58" and exp is not None and exp != ("rej",) and R32.raw_decode(st["text"]) is not None:
+            rec.ev("hist.parse_b58.text_is_bech32_string_too")
+    _SEEN_HRPS.update(_h_hrps(st))
+    got, ret, arg, snap = _h_run(st, env, M)
+    bad = not _h_agrees(op, exp, got)
     if bad:
         earlier = [h for h in H[:-1] if h.get("g") == st.get("g")]
         hands_out_list = lambda h: h["op"] in ("bech32_decode", "decode", "convertbits85", "convertbits58", "bech32_encode") or \
             h.get("as") in ("list", "bytearray")
-        if any(h.get("mut", "none") != "none" and hands_out_list(h) for h in earlier):
+        if refused_before:
+            when = "after_refused_call"
+        elif any(h.get("mut", "none") != "none" and hands_out_list(h) for h in earlier):
             when = "after_caller_modified_earlier_values"
         elif earlier:
             when = "after_related_calls"
         else:
             when = "first_call"
-        rec.violation("hist.%s.%s" % (st["op"], when), {"history": list(H)}, got, exp)
+        rec.violation("hist.%s.%s" % (op, when), {"history": list(H)}, got, exp)
+    # what the caller handed over is the caller's: a list / bytearray argument reads the same after the call, refused or not
+    if snap is not None:
+        rec.ev("hist.mutable_argument")
+        rec.ev("hist.mutable_argument.%s" % type(arg).__name__)
+        if op == "x":
+            rec.ev("hist.mutable_argument.refused_call")
+        if type(arg) is not type(snap) or arg != snap:
+            rec.violation("hist.%s.argument_modified" % (op if op != "x" else "refused_call"), {"history": list(H)},
+                          {"argument_after": arg}, {"argument_before": snap})
+            bad = True
+        elif st.get("twice") and not bad and op != "x":
+            rec.ev("hist.second_call_same_object")
+            got2, ret2, _, _ = _h_run(st, env, M, reuse=arg)
+            if not (_h_agrees(op, exp, got2) if exp is not None else got2 == got):
+                rec.violation("hist.%s.second_call_same_object" % op, {"history": list(H)}, got2, exp if exp is not None else got)
+                bad = True
+            _mutate(ret2, st.get("mut", "none"))
     how = st.get("mut", "none")
     if how != "none":
         rec.ev("hist.caller_mutation")
@@ -834,16 +964,37 @@ def _h_step(st, H, env, rec, M):
     return bad
 
 
-def _h_pool(rng):
-    """-> list of (group, entry) the steps of one history draw from."""
+FRESH_CHARS = "abcdefghijklmnopqrstuvwxyz" * 3 + "0123456789" + "-_.~?"
+
+
+def _fresh_hrp(rng):
+    """A human-readable part with at least one letter that no history step of this process has named before."""
+    while True:
+        n = rng.choice([1, 2, 2, 3, 3, 4, 5, 8, 12])
+        hrp = "".join(rng.choice(FRESH_CHARS) for _ in range(n))
+        if any(ch.isalpha() for ch in hrp) and hrp not in _SEEN_HRPS and hrp not in HRPS:
+            return hrp
+
+
+def _h_pool(rng, fresh=False):
+    """-> list of (group, entry) the steps of one history draw from. fresh: human-readable parts never used in this process;
+    some addresses picked so that their text is a Base58 string too (no '0', 'O', 'I', 'l')."""
     pool = []
     g = 0
     for _ in range(rng.choice([1, 2, 3])):
-        hrp = rng.choice(HRPS[:8] + ["2", "42"])
+        hrp = _fresh_hrp(rng) if fresh else rng.choice(HRPS[:8] + ["2", "42"])
         ver = rng.choice([0, 0, 1, 1, 2, 16, rng.randrange(17)])
         prog = bytes(rng.randrange(256) for _ in range(rng.choice(_segwit_lengths(ver))))
         if len(hrp) + 2 + (len(prog) * 8 + 4) // 5 + 6 > 90:
             prog = prog[:20]
+        if fresh and rng.random() < 0.4:
+            hrp = "".join(ch for ch in hrp if ch not in "0l-_.~?")
+            if hrp in _SEEN_HRPS or not any(ch.isalpha() for ch in hrp):
+                hrp = _fresh_hrp(rng)
+            for _ in range(60):
+                if RB.decode(R32.segwit_encode(hrp, ver, prog)) is not None:
+                    break
+                prog = bytes(rng.randrange(256) for _ in range(len(prog) if ver == 0 else rng.choice([2, 3, 5, 8])))
         good = R32.segwit_encode(hrp, ver, prog)
         pool.append((g, {"t": "addr", "hrp": hrp, "ver": ver, "prog": prog, "text": good}))
         if rng.random() < 0.5:
@@ -871,10 +1022,29 @@ def _h_pool(rng):
     return pool
 
 
-def _h_make_step(rng, g, e):
+EXT_OPS = {      # extended histories: both families of parsers on every text, decoder results handed to the encoder
+    "addr": ["bech32_decode", "decode", "decode", "decode_other", "encode", "encode", "parse_bech32", "bech32_encode", "convertbits85",
+             "convertbits58", "chain_bech32", "chain_segwit", "chain_parse", "parse_b58", "parse_b58", "parse_b58_double_sha256",
+             "a2b_base58"],
+    "text32": ["bech32_decode", "decode", "parse_bech32", "decode_other", "chain_bech32", "chain_segwit", "chain_parse", "parse_b58",
+               "parse_b58_double_sha256"],
+    "b58": ["a2b_base58", "a2b_hashed_base58", "is_hashed_base58_valid", "parse_b58_double_sha256", "parse_b58", "chain_b58",
+            "parse_bech32", "bech32_decode"],
+    "bytes": ["b2a_base58", "b2a_hashed_base58", "b2a_hashed_base58", "convertbits85"],
+}
+
+
+def _h_make_step(rng, g, e, ext=False):
     t = e["t"]
     mut = rng.choice(MUTS)
-    if t == "addr":
+    if ext and t in ("addr", "text32") and rng.random() < 0.35 and RB.decode(e["text"]) is not None:
+        # a Bech32 text over the Base58 alphabet: one object through both families of parsers
+        op = rng.choice(["parse_b58", "parse_b58", "parse_bech32", "chain_parse", "parse_b58_double_sha256"])
+        st = {"op": op, "g": g, "mut": mut, "twice": False, "text": e["text"], "spell": rng.choice(["pstr", "pstr", "pstr", "plain"])}
+        return st
+    if ext:
+        op = rng.choice(EXT_OPS[t])
+    elif t == "addr":
         op = rng.choice(["bech32_decode", "bech32_decode", "decode", "decode", "decode_other", "encode", "encode", "parse_bech32",
                          "bech32_encode", "convertbits85", "convertbits58"])
     elif t == "text32":
@@ -884,6 +1054,23 @@ def _h_make_step(rng, g, e):
     else:
         op = rng.choice(["b2a_base58", "b2a_hashed_base58", "convertbits85"])
     st = {"op": op, "g": g, "mut": mut}
+    if ext:
+        st["twice"] = rng.random() < 0.5
+    if ext and op == "decode_other" and rng.random() < 0.7:        # human-readable parts that nest
+        h = e["hrp"]
+        st.update(op="decode", hrp=rng.choice([h + "1", h + "1q", h + h, "1" + h, h[:-1] or "1", h[1:] or "1", h + "1" + h]),
+                  text=e["text"], spell="plain", nested=True)
+        return st
+    if ext and op in ("chain_bech32", "chain_segwit", "chain_parse", "parse_b58"):
+        st.update(text=e["text"], spell=rng.choice(["plain", "pstr", "pstr"]))
+        if op == "chain_segwit":
+            st.update(hrp=e["hrp"])
+        return st
+    if ext and op == "chain_b58":
+        st.update(text=e["text"])
+        return st
+    if ext and op in ("b2a_base58", "b2a_hashed_base58"):
+        st["as"] = rng.choice(["bytes", "bytearray", "bytearray"])
     if op == "bech32_decode":
         st.update(text=e["text"], spell=rng.choice(["plain", "plain", "pos90", "kw90", "pstr", "pstr_new"]))
     elif op == "decode":
@@ -911,6 +1098,205 @@ def _h_make_step(rng, g, e):
     return st
 
 
+# -- calls the library may refuse ---------------------------------------------------------------
+# A step {"op": "x", "call": <function>, "bad": <what is wrong with the request>, ...the valid request it was derived from}.
+# Nothing is demanded of the call itself (refusing is right, and where the library answers anyway the statement does not
+# say what); what is judged are the calls after it, and that the caller's list / bytearray arguments are left alone.
+
+X_CASE_BADS = ("hrp_upper", "hrp_mixed", "hrp_lastupper")
+X_ENCODE_SIDE = ("encode", "bech32_encode", "bech32_create_checksum")
+X_CASE = [(c, b) for c in X_ENCODE_SIDE for b in X_CASE_BADS] + [("bech32_verify_checksum", "hrp_upper"), ("decode", "hrp_upper")]
+X_HRP = ["hrp_none", "hrp_bytes", "hrp_space", "hrp_empty", "hrp_del", "hrp_int"]
+X_VER = ["ver_17", "ver_32", "ver_neg", "ver_2p32", "ver_none", "ver_str", "ver_float", "ver_list"]
+X_PROG = ["prog_short", "prog_long", "prog_v0len", "prog_empty", "prog_item_256", "prog_item_neg", "prog_item_none", "prog_item_float",
+          "prog_item_str", "prog_str", "prog_none", "prog_int"]
+X_VALS = ["vals_item_32", "vals_item_none", "vals_item_str", "vals_none", "vals_str", "spec_none", "spec_3"]
+X_TEXT = ["text_none", "text_bytes", "text_bytearray", "text_list", "text_int", "text_nonascii", "text_nul"]
+X_DATA = ["data_str", "data_none", "data_int", "data_list", "data_list_300", "data_list_neg", "data_list_none", "data_list_str",
+          "data_memoryview"]
+X_ADDR = ([("encode", b) for b in X_CASE_BADS + tuple(X_HRP) + tuple(X_VER) + tuple(X_PROG)] +
+          [("bech32_encode", b) for b in X_CASE_BADS + tuple(X_HRP[:3]) + tuple(X_VALS)] +
+          [("bech32_create_checksum", b) for b in X_CASE_BADS + ("vals_item_none", "vals_none")] +
+          [("bech32_verify_checksum", b) for b in ("hrp_upper", "hrp_none", "vals_item_none")] +
+          [("convertbits85", b) for b in X_PROG[4:]] + [("convertbits58", b) for b in X_VALS[:5]])
+X_TEXT32 = ([("decode", b) for b in ["hrp_upper", "hrp_none", "hrp_bytes", "hrp_int"] + X_TEXT] +
+            [("bech32_decode", b) for b in X_TEXT + ["maxlen_none", "maxlen_str", "maxlen_10", "maxlen_neg"]] +
+            [("parse_bech32", b) for b in X_TEXT])
+X_B58 = [(c, b) for c in ("a2b_base58", "a2b_hashed_base58", "is_hashed_base58_valid", "parse_b58_double_sha256", "parse_b58")
+         for b in X_TEXT + ["text_outside"]]
+X_BYTES = [(c, b) for c in ("b2a_base58", "b2a_hashed_base58") for b in X_DATA] + [("convertbits85", b) for b in X_PROG[4:]]
+
+
+def _x_make_step(rng, g, e, cased=False):
+    t = e["t"]
+    if t == "addr":
+        call, bad = rng.choice(X_CASE if cased else X_ADDR + X_TEXT32)
+    elif t == "text32":
+        call, bad = rng.choice(X_TEXT32)
+    elif t == "b58":
+        call, bad = rng.choice(X_B58)
+    else:
+        call, bad = rng.choice(X_BYTES)
+    st = {"op": "x", "call": call, "bad": bad, "g": g, "k": rng.choice([-1, -1, -1, 0, rng.randrange(1 << 16)])}
+    for f in ("hrp", "ver", "prog", "text", "data"):
+        if f in e:
+            st[f] = e[f]
+    if "prog" not in st and "data" in st:
+        st["prog"] = st["data"]
+    return st
+
+
+def _x_seq(base, bad, k):
+    """The sequence argument of a refused call: `base` (bytes or list) with the fault named by `bad` put in at position k."""
+    what = bad.split("_", 1)[1]
+    if what == "none":
+        return None
+    if what == "int":
+        return 7
+    if what == "str":
+        return bytes(base).hex() if all(isinstance(x, int) and 0 <= x < 256 for x in base) else "qpzry"
+    item = {"item_256": 256, "item_32": 32, "item_neg": -1, "item_none": None, "item_float": 1.5, "item_str": "1",
+            "list_300": 300, "list_neg": -1, "list_none": None, "list_str": "a"}.get(what)
+    out = list(base)
+    if what == "list":
+        return out
+    if not out:
+        return [item]
+    k = k % len(out) if k >= 0 else len(out) - 1
+    if k == len(out) - 1 and (k % 2 or len(out) == 1):
+        out.append(item)         # every valid item first, then the bad one
+    else:
+        out[k] = item
+    return out
+
+
+def _x_run(st, M):
+    """Perform the call of an "x" step. -> like _h_run."""
+    b58, _, bm, ps = M
+    call, bad, k = st["call"], st["bad"], st.get("k", -1)
+    hrp, ver, prog, text = st.get("hrp"), st.get("ver"), st.get("prog"), st.get("text")
+    if bad.startswith("hrp_"):
+        letters = [i for i, ch in enumerate(hrp) if ch.isalpha()]
+        i = letters[k % len(letters)] if letters else 0
+        hrp = {"hrp_upper": hrp.upper(), "hrp_mixed": hrp[:i] + hrp[i:i + 1].upper() + hrp[i + 1:],
+               "hrp_lastupper": hrp[:-1] + hrp[-1:].upper() if hrp[-1:].isalpha() else hrp.upper(),
+               "hrp_none": None, "hrp_bytes": hrp.encode("utf8"), "hrp_space": hrp + " ", "hrp_empty": "", "hrp_del": hrp + "\x7f",
+               "hrp_int": 5}[bad]
+    if bad.startswith("ver_"):
+        ver = {"ver_17": 17, "ver_32": 32, "ver_neg": -1, "ver_2p32": 1 << 32, "ver_none": None, "ver_str": str(ver),
+               "ver_float": ver + 0.5, "ver_list": [ver]}[bad]
+    arg = None
+    if call in ("encode", "convertbits85"):
+        if bad == "prog_short":
+            prog = prog[:1]
+        elif bad == "prog_long":
+            prog = prog + prog + b"\1" * 41
+        elif bad == "prog_v0len":
+            ver, prog = 0, (prog + b"\0" * 32)[:21 + k % 11]
+        elif bad == "prog_empty":
+            prog = b""
+        elif bad.startswith("prog_"):
+            prog = _x_seq(prog, bad, k)
+        if isinstance(prog, list):
+            arg = prog
+        elif bad.startswith(("hrp_", "ver_")) and k % 3 == 0:
+            prog = arg = bytearray(prog)
+        fn, a = (bm.encode, (hrp, ver, prog)) if call == "encode" else (bm.convertbits, (prog, 8, 5))
+    elif call in ("bech32_encode", "bech32_create_checksum", "bech32_verify_checksum", "convertbits58"):
+        vals = [ver] + R32.to5(prog)
+        variant = "bech32" if ver == 0 else "bech32m"
+        spec = {"spec_none": None, "spec_3": 3}.get(bad, 1 if ver == 0 else 2)
+        if call == "bech32_verify_checksum":
+            vals = vals + R32.checksum(st["hrp"], vals, variant)
+        if bad.startswith("vals_"):
+            vals = _x_seq(vals, bad, k)
+        if isinstance(vals, list):
+            arg = vals
+        fn = getattr(bm, {"convertbits58": "convertbits"}.get(call, call), None)
+        a = {"bech32_encode": (hrp, vals, spec), "bech32_create_checksum": (hrp, vals, spec),
+             "bech32_verify_checksum": (hrp, vals), "convertbits58": (vals, 5, 8, False)}[call]
+    elif call in ("decode", "bech32_decode", "parse_bech32", "a2b_base58", "a2b_hashed_base58", "is_hashed_base58_valid",
+                  "parse_b58_double_sha256", "parse_b58"):
+        if bad.startswith("text_"):
+            i = k % (len(text) + 1)
+            text = {"text_none": None, "text_bytes": text.encode("utf8"), "text_bytearray": bytearray(text.encode("utf8")),
+                    "text_list": list(text), "text_int": 5, "text_nonascii": text[:i] + "\xe9" + text[i:],
+                    "text_nul": text[:i] + "\0" + text[i:], "text_outside": text[:i] + "0OIl"[k % 4] + text[i:]}[bad]
+        if isinstance(text, (list, bytearray)):
+            arg = text
+        if call == "decode":
+            fn, a = bm.decode, (hrp, text)
+        elif call == "bech32_decode":
+            fn = bm.bech32_decode
+            a = (text,) if not bad.startswith("maxlen_") else \
+                (text, {"maxlen_none": None, "maxlen_str": "90", "maxlen_10": 10, "maxlen_neg": -1}[bad])
+        else:
+            fn, a = getattr(b58, call, None) or getattr(ps, call, None), (text,)
+    elif call in ("b2a_base58", "b2a_hashed_base58"):
+        data = st["data"]
+        data = memoryview(data) if bad == "data_memoryview" else _x_seq(data, bad, k)
+        if isinstance(data, list):
+            arg = data
+        fn, a = getattr(b58, call), (data,)
+    else:
+        raise ValueError(call)
+    if fn is None:
+        return ("absent",), None, None, None
+    snap = type(arg)(arg) if arg is not None else None
+    s, r = observe(fn, *a)
+    if s != "ok":
+        return ("exc", type(r).__name__), None, arg, snap
+    refused = r is None or (isinstance(r, tuple) and r and all(x is None for x in r)) or r is False
+    return ("rej",) if refused else ("answered",), r, arg, snap
+
+
+def run_errhist(spec, rec, M):
+    """Histories in which requests the library may refuse (wrong case of a never-used human-readable part, values and
+    types that do not fit) stand between the judged calls."""
+    rng = shard_rng(spec["seed"], PROPERTY, spec["tier"], spec["shard"])
+    for r in range(spec["n"]):
+        pool = _h_pool(rng, fresh=True)
+        env = {"pstr": {}}
+        H = []
+        last = None
+        queue = []
+        if rng.random() < 0.6:          # the very first time the process hears of an HRP it is spelled in the wrong case
+            for g in sorted({x[0] for x in pool if x[1]["t"] == "addr"}):
+                if rng.random() < 0.8:
+                    queue.append((g, [x[1] for x in pool if x[0] == g and x[1]["t"] == "addr"][0]))
+        for i in range(rng.choice([6, 10, 16, 24])):
+            if queue:
+                g, e = queue.pop(0)
+                st = _x_make_step(rng, g, e, cased=True)
+            else:
+                if last is not None and rng.random() < 0.6:
+                    g, e = rng.choice([x for x in pool if x[0] == last])
+                else:
+                    g, e = rng.choice(pool)
+                st = _x_make_step(rng, g, e) if rng.random() < 0.3 else _h_make_step(rng, g, e, ext=True)
+            last = g
+            H.append(st)
+            rec.case(("errhist", r, i, st["op"], st.get("call"), st.get("bad"), st.get("text"), st.get("prog"), st.get("data"),
+                      st.get("spell"), st.get("mut")))
+            if _h_step(st, H, env, rec, M):
+                break
+        if r == 0:
+            rec.sample({"op": "call history with refused calls", "steps": [{k: v for k, v in h.items() if k != "g"} for h in H[:5]]})
+    rec.require("hist.refused_call.cased_hrp_is_first_use_of_hrp", "hist.valid_request_on_hrp_first_used_by_refused_call",
+                "hist.judged_after_refused_call.valid_request", "hist.mutable_argument.refused_call",
+                "hist.mutable_argument.list", "hist.mutable_argument.bytearray", "hist.second_call_same_object",
+                "hist.parse_b58.text_is_bech32_string_too", "hist.decode.nested_hrp",
+                *["hist." + op for op in ("x", "chain_bech32", "chain_segwit", "chain_parse", "chain_b58", "parse_b58", "b2a_base58",
+                                          "b2a_hashed_base58", "encode", "decode", "bech32_decode", "parse_bech32",
+                                          "a2b_hashed_base58", "parse_b58_double_sha256")],
+                *["hist.refused_call.%s.%s" % cb for cb in (
+                    ("encode", "hrp"), ("encode", "ver"), ("encode", "prog"), ("bech32_encode", "hrp"), ("bech32_encode", "vals"),
+                    ("bech32_create_checksum", "hrp"), ("decode", "text"), ("bech32_decode", "text"), ("bech32_decode", "maxlen"),
+                    ("convertbits85", "prog"), ("convertbits58", "vals"), ("b2a_base58", "data"), ("b2a_hashed_base58", "data"),
+                    ("a2b_base58", "text"), ("a2b_hashed_base58", "text"), ("parse_b58_double_sha256", "text"),
+                    ("parse_bech32", "text"))])
+
+
 def run_hist(spec, rec, M):
     rng = shard_rng(spec["seed"], PROPERTY, spec["tier"], spec["shard"])
     for r in range(spec["n"]):
@@ -935,6 +1321,91 @@ def run_hist(spec, rec, M):
     rec.require("hist.caller_mutation", *["hist." + op for op in (
         "bech32_decode", "decode", "encode", "parse_bech32", "bech32_encode", "convertbits85", "convertbits58", "a2b_base58",
         "a2b_hashed_base58", "is_hashed_base58_valid", "parse_b58_double_sha256", "b2a_base58", "b2a_hashed_base58")])
+
+
+# -- one long run -----------------------------------------------------------------------------------
+# More than 2**16 operations in one process: every codec entry point on one human-readable part, and the cached helpers on
+# the same two parseable_str objects every time as well as on a new string every time. Requests are a function of the
+# operation number alone, so a witness {"longrun_upto": i} is replayed by running operations 0..i again.
+
+LR_HRP = "lr"
+
+
+def _lr_payload(i):
+    return i.to_bytes(3, "big") + bytes([(i * 167 + 13) & 255])
+
+
+def run_longrun(spec, rec, M, upto=None):
+    b58, EncodingError, bm, ps = M
+    n = spec["n"] if upto is None else upto + 1
+    c0 = _pm_feed(1, R32._expand(LR_HRP))
+    p_payload = b"\0long run"
+    P = ps.parseable_str(RB.encode_check(p_payload))
+    q = ("bc", 1, bytes(range(32)))
+    Q = ps.parseable_str(R32.segwit_encode(*q))
+    bad = 0
+
+    def differs(mech, i, got, exp):
+        rec.violation("longrun." + mech, {"longrun_upto": i, "payload": _lr_payload(i)}, got, exp)
+        return 1
+
+    for i in range(n):
+        rec.ev("longrun.operation")
+        rec.case(("lr", i))
+        payload = _lr_payload(i)
+        # Base58Check, a new string every time
+        text = RB.encode(payload + RB.dsha(payload)[:4])
+        st, got = observe(b58.b2a_hashed_base58, payload)
+        if st != "ok" or got != text:
+            bad += differs("b2a_hashed_base58", i, got, text)
+        st, got = observe(b58.a2b_hashed_base58, text)
+        if st != "ok" or got != payload:
+            bad += differs("a2b_hashed_base58", i, got, payload)
+        st, got = observe(ps.parse_b58_double_sha256, text)
+        if st != "ok" or got != payload:
+            bad += differs("parse_b58_double_sha256", i, got, payload)
+        # segwit address on one HRP, a new string every time; checksum continued from the state after the HRP
+        ver = 1 + i % 16
+        data = [ver] + R32.to5(payload)
+        pm = _pm_feed(c0, data + [0] * 6) ^ R32.CONST["bech32m"]
+        addr = LR_HRP + "1" + "".join(R32.CHARSET[d] for d in data + [(pm >> (5 * (5 - j))) & 31 for j in range(6)])
+        if i % 4096 == 0 and addr != R32.segwit_encode(LR_HRP, ver, payload):
+            rec.ev("inconclusive:longrun_incremental_reference_disagrees_with_reference")
+            rec.note("long run: incremental Bech32m reference disagrees with refs/bech32 at operation %d" % i)
+            return
+        st, got = observe(bm.encode, LR_HRP, ver, payload)
+        if st != "ok" or got != addr:
+            bad += differs("encode", i, got, addr)
+        st, got = observe(bm.decode, LR_HRP, addr if i & 1 else addr.upper())
+        if st != "ok" or got[0] != ver or got[1] is None or bytes(got[1]) != payload:
+            bad += differs("decode", i, got, [ver, payload])
+        st, got = observe(ps.parse_bech32, addr)
+        if st != "ok" or got is None or tuple(got[:3]) != (LR_HRP, ver, payload):
+            bad += differs("parse_bech32", i, got, [LR_HRP, ver, payload])
+        # the same two objects every time
+        st, got = observe(ps.parse_b58_double_sha256, P)
+        if st != "ok" or got != p_payload:
+            bad += differs("parse_b58_double_sha256.same_object", i, got, p_payload)
+        st, got = observe(ps.parse_bech32, Q)
+        if st != "ok" or got is None or tuple(got[:3]) != q:
+            bad += differs("parse_bech32.same_object", i, got, list(q))
+        if i % 8 == 0:          # corruption is still noticed
+            k = (i >> 3) % len(text)
+            wrong = text[:k] + RB.ALPHABET[(RB.ALPHABET.index(text[k]) + 1 + i % 57) % 58] + text[k + 1:]
+            st, got = observe(b58.a2b_hashed_base58, wrong)
+            if st == "ok":
+                bad += differs("a2b_hashed_base58.accepts_corrupted", i, got, "EncodingError")
+            k = len(LR_HRP) + 1 + (i >> 3) % (len(addr) - len(LR_HRP) - 1)
+            wrong = addr[:k] + R32.CHARSET[(R32.CHARSET.index(addr[k]) + 1 + i % 31) % 32] + addr[k + 1:]
+            st, got = observe(bm.decode, LR_HRP, wrong)
+            if st == "ok" and tuple(got) != (None, None):
+                bad += differs("decode.accepts_corrupted", i, got, [None, None])
+        if i == (1 << 16) + 99:
+            rec.ev("longrun.beyond_2**16_plus_100_operations")
+        if bad >= 4:
+            break
+    rec.require("longrun.operation", "longrun.beyond_2**16_plus_100_operations")
+    rec.sample({"op": "long run", "operations": n, "hrp": LR_HRP, "same_objects": [str(P), str(Q)]})
 
 
 def replay_history(case, rec, M):
@@ -1088,9 +1559,10 @@ def run_shard(spec, rec):
     rec = _Rec(rec)
     kind = spec["kind"]
     rec.require({"b58": "a2b_base58", "b58check": "a2b_base58", "bech32": "bech32m.decode", "bech32_reject": "bech32m.decode",
-                 "subst": "subst1", "caseless": "bech32m.decode", "hist": "hist.step"}[kind])
+                 "subst": "subst1", "caseless": "bech32m.decode", "hist": "hist.step", "errhist": "hist.step",
+                 "longrun": "longrun.operation"}[kind])
     {"b58": run_b58, "b58check": run_b58check, "bech32": run_bech32, "bech32_reject": run_bech32_reject,
-     "subst": run_subst, "caseless": run_caseless, "hist": run_hist}[kind](spec, rec, M)
+     "subst": run_subst, "caseless": run_caseless, "hist": run_hist, "errhist": run_errhist, "longrun": run_longrun}[kind](spec, rec, M)
 
 
 def replay_case(case, rec):
@@ -1099,6 +1571,8 @@ def replay_case(case, rec):
     rec = _Rec(rec)
     if "history" in case:
         replay_history(case, rec, M)
+    elif "longrun_upto" in case:
+        run_longrun({}, rec, M, upto=int(case["longrun_upto"]))
     elif "corrupted" in case:
         hrp = case.get("hrp") or case["valid"][:case["valid"].rfind("1")]
         _check_decode_text(hrp, case["corrupted"], rec, M, must_reject=True, why="replay")
